@@ -21,6 +21,8 @@ NChunks == (N + K - 1) \div K
 VARIABLE l
 
 IsNum(x)   == x[1] # 9
+\* build tag of the harness that recorded the event: "fast-..." (default features) or "exact-..." (--no-default-features)
+IsFast(b)  == SubSeq(b, 1, 4) = "fast"
 AllNum3(p) == IsNum(p[1]) /\ IsNum(p[2]) /\ IsNum(p[3])
 MinOf(S)   == CHOOSE i \in S : \A j \in S : i <= j
 \* verdicts: <<>> = accepted, otherwise <<clause, where...>>
@@ -93,7 +95,7 @@ VTf(e) ==
   ELSE FirstBad("C03.curve",
          {i \in 1..Len(e.x) : \E k \in 1..3 :
             /\ InUnit(e.x[i][k])
-            /\ ~(IsNum(e.y[i][k]) /\ NearAny(e.y[i][k], CurveRef(e.tc, e.dir, e.x[i][k]), CurveTol(e.tc, e.dir)))})
+            /\ ~(IsNum(e.y[i][k]) /\ NearAny(e.y[i][k], CurveRef(e.tc, e.dir, e.x[i][k]), IF IsFast(e.b) THEN CurveTol(e.tc, e.dir) ELSE TolExact))})
 
 \* C03  ev = "tfa": the aliases of one curve on a shared input: bit-identical results
 VTfa(e) == FirstBad("C03.alias-bits", {k \in 2..Len(e.yb) : e.yb[k] # e.yb[1]})
@@ -244,7 +246,7 @@ VPow(e) == FirstBad("C18.powf",
   {i \in 1..Len(e.s) : LET r == e.s[i] IN PowInScope(r[1], r[2]) /\ ~PowOk(r[1], r[2], r[3], PowTol(e.b, r[2]))})
 \* ev = "exp": s = list of <<x_fx, x_me, r_me>>
 ExpTol(b) == IF SubSeq(b, 1, 4) = "fast" THEN ExpTolFast ELSE TwoUlpRel
-VExp(e) == FirstBad("C18.expf", {i \in 1..Len(e.s) : LET r == e.s[i] IN ~ExpOk(r[1], r[2], r[3], ExpTol(e.b))})
+VExp(e) == FirstBad("C18.expf", {i \in 1..Len(e.s) : LET r == e.s[i] IN ~ExpOk(r[1], r[2], r[3], ExpTol(e.b), IsFast(e.b))})
 \* ev = "mathtot": special values and random bit patterns through one helper; panics caught, exp2 hook summarised
 VMathTot(e) ==
   IF e.panics # 0 THEN <<"C18.total-panic", e.fn, e.first_panic>>
@@ -276,6 +278,31 @@ VTotalC13(e) ==
   ELSE IF ~YuvStage(e) /\ e.len # e.npx THEN <<"C13.dims">>
   ELSE IF ~YuvStage(e) /\ e.input = "unit" /\ e.nonfinite # 0 THEN <<"C13.non-finite-on-unit-cube", e.nonfinite>>
   ELSE OK
+\* C20  ev = "pair": the same call recorded by the fastmath build (a) and the exact build (b) of one (FMA, profile)
+\* setting; the two must agree within the fastmath budget of that call.  Pairs whose inputs differ (the screened
+\* part of a sweep depends on the build) are not comparable and are skipped.
+LnClose(ra, rb, tol) == IsNormal(ra) /\ IsNormal(rb) /\ ra[2] = rb[2] /\ Cmp(Abs(Sub(LnME(ra), LnME(rb))), Add(tol, SpecEps)) <= 0
+VPair(e) ==
+  LET a == e.a  b == e.b2 IN
+  CASE a.ev = "tf" ->
+         IF a.x # b.x \/ a.res # "ok" \/ b.res # "ok" \/ a.tc = 8 THEN OK
+         ELSE FirstBad("C20.builds-disagree-curve",
+                {i \in 1..Len(a.x) : \E k \in 1..3 : InUnit(a.x[i][k]) /\
+                    ~(IsNum(a.y[i][k]) /\ IsNum(b.y[i][k]) /\ Near(a.y[i][k], b.y[i][k], CurveTol(a.tc, a.dir)))})
+    [] a.ev = "xyb" ->
+         IF a.in # b.in \/ a.res # "ok" \/ b.res # "ok" THEN OK
+         ELSE FirstBad("C20.builds-disagree-xyb",
+                {i \in 1..Len(a.in) : AllNum3(a.in[i]) /\ InScope04(a.in[i]) /\
+                    ~(AllNum3(a.out[i]) /\ AllNum3(b.out[i]) /\ \A k \in 1..3 : Near(a.out[i][k], b.out[i][k], Tol2em6))})
+    [] a.ev = "pow" ->
+         FirstBad("C20.builds-disagree-powf",
+                {i \in 1..Len(a.s) : a.s[i][1] = b.s[i][1] /\ a.s[i][2] = b.s[i][2] /\ PowInScope(a.s[i][1], a.s[i][2]) /\
+                    ~LnClose(a.s[i][3], b.s[i][3], PowTolFast(a.s[i][2]))})
+    [] a.ev = "exp" ->
+         FirstBad("C20.builds-disagree-expf",
+                {i \in 1..Len(a.s) : a.s[i][1] = b.s[i][1] /\ a.s[i][1][1] # 9 /\ Cmp(Abs(a.s[i][1]), X85) <= 0 /\
+                    ~LnClose(a.s[i][3], b.s[i][3], ExpTolFast)})
+    [] OTHER -> OK
 VTotal(e) == IF e.p = "C07" THEN VTotalC07(e)
              ELSE IF e.p = "C13" THEN VTotalC13(e)
              ELSE LET a == VTotalC07(e) IN IF a # OK THEN a ELSE VTotalC13(e)
@@ -297,6 +324,7 @@ Verdict(e) ==
     [] e.ev = "exp"    -> VExp(e)
     [] e.ev = "mathtot" -> VMathTot(e)
     [] e.ev = "total"  -> VTotal(e)
+    [] e.ev = "pair"   -> VPair(e)
     [] e.ev = "xyb"    -> VXyb(e)
     [] e.ev = "xybrt"  -> VXybRt(e)
     [] e.ev = "prim"   -> VPrim(e)
